@@ -348,6 +348,7 @@ type vhEntr struct {
 	causeJump   bool
 	causeNilQ   bool
 	causeAllNoQ bool
+	prevFinal   bool // first entrance of a later life: the finalization of prev.h was stored when the process died
 }
 
 const (
@@ -381,6 +382,7 @@ type vhFinReq struct {
 	at       vhHR
 	answered bool
 	life     int
+	again    bool // a finalization of that height was already stored when the request was made
 }
 
 type vhEmit struct {
@@ -678,6 +680,10 @@ func (e *vhSM) onEntrance(re tmeil.StateMachineRoundEntrance) {
 			_, _, _, _, err := e.fs.LoadFinalizationByHeight(e.ctx, e.cur.h)
 			en.okHeight = err == nil
 		}
+	}
+	if en.first && e.life > 1 {
+		_, _, _, _, err := e.fs.LoadFinalizationByHeight(e.ctx, e.cur.h)
+		en.prevFinal = err == nil
 	}
 	e.entrances = append(e.entrances, en)
 	e.cur, e.haveCur = hr, true
@@ -1091,7 +1097,8 @@ func (e *vhSM) afterEvent() {
 	}
 	for len(e.finReqCh) > 0 {
 		q := <-e.finReqCh
-		e.finReqs = append(e.finReqs, &vhFinReq{req: q, at: e.cur, life: e.life})
+		_, _, _, _, ferr := e.fs.LoadFinalizationByHeight(e.ctx, q.Header.Height)
+		e.finReqs = append(e.finReqs, &vhFinReq{req: q, at: e.cur, life: e.life, again: ferr == nil})
 	}
 	for _, en := range e.entrances {
 		for en.actions != nil && len(en.actions) > 0 {
